@@ -15,6 +15,7 @@ import (
 
 	"github.com/lindb/lindb/internal/vevid"
 	"github.com/lindb/lindb/pkg/queue"
+	"github.com/lindb/lindb/pkg/queue/page"
 )
 
 type gcCase struct {
@@ -302,6 +303,29 @@ func runGCScan(f *vevid.Flags, rep *vevid.Report) {
 			}
 		}
 	}
+	// a start that fails: the k-th open / mapping of a page file answers with an error (every k of a complete start,
+	// both kinds), the start after that one succeeds
+	for _, profile := range []string{"half", "big", "tiny", "mixed"} {
+		for _, n := range []int{1, 3, 6, 9} {
+			for _, ack := range []int64{-1, 0, int64(n) - 2} {
+				if ack >= int64(n) || ack < -1 || (ack == 0 && n == 1) {
+					continue
+				}
+				idx++
+				if !f.Mine(idx) {
+					continue
+				}
+				if f.Expired() {
+					rep.Cap("deadline")
+					return
+				}
+				no++
+				rep.Evaluations++
+				rep.DistinctNontrivial++
+				runFaultyOpenCase(rep, f, profile, n, ack, no)
+			}
+		}
+	}
 	// explicit index resets
 	for _, profile := range []string{"half", "big", "tiny", "mixed"} {
 		for _, n := range []int{1, 5, 6, 9, 10} {
@@ -367,4 +391,111 @@ func runGCScan(f *vevid.Flags, rep *vevid.Report) {
 			}
 		}
 	}
+}
+
+// runFaultyOpenCase: n appends, one group acknowledges up to ack, Sync, close. Then, for every k, a start of the queue
+// whose k-th open (and, separately, k-th mapping) of a page file fails once - the start may fail or succeed - followed
+// by a clean start: positions are what they were and every message above the acknowledged position reads back.
+func runFaultyOpenCase(rep *vevid.Report, f *vevid.Flags, profile string, n int, ack int64, no int) {
+	scen := fmt.Sprintf("faulty-open/%s", profile)
+	cfg := fmt.Sprintf("profile=%s appends=%d ack=%d", profile, n, ack)
+	viol := func(clause, site, detail string) {
+		rep.Violate(vevid.Violation{Clause: clause, Scenario: scen, Site: site, Detail: cfg + ": " + detail, Replay: replay{Part: "gcscan", Config: cfg}})
+	}
+	dir := filepath.Join(f.Scratch, fmt.Sprintf("fo%d", no))
+	_ = os.RemoveAll(dir)
+	defer os.RemoveAll(dir)
+	defer func() { page.VerifPageFault = nil }()
+	defer func() {
+		if r := recover(); r != nil {
+			viol("panic", "pkg/queue", fmt.Sprint(r))
+		}
+	}()
+	fq, err := queue.NewFanOutQueue(dir, 0)
+	if err != nil {
+		vevid.OpFailed("new fan-out queue: %v", err)
+	}
+	g, err := fq.GetOrCreateConsumerGroup("a")
+	if err != nil {
+		vevid.OpFailed("group: %v", err)
+	}
+	for i := 0; i < n; i++ {
+		if err := fq.Queue().Put(gcPayload(profile, i)); err != nil {
+			viol("put-failed", "queue.Put", fmt.Sprintf("append %d: %v", i, err))
+			fq.Close()
+			return
+		}
+	}
+	for s := int64(0); s <= ack; s++ {
+		g.Consume()
+	}
+	if ack >= 0 {
+		g.Ack(ack)
+	}
+	fq.Sync()
+	fq.Close()
+	want := int64(n - 1)
+	faults := 0
+	for _, kind := range []string{"open", "map"} {
+		for k := 1; ; k++ {
+			seen, hit := 0, false
+			page.VerifPageFault = func(op, file string) error {
+				if op != kind {
+					return nil
+				}
+				seen++
+				if seen == k {
+					hit = true
+					return fmt.Errorf("injected %s failure of %s", op, filepath.Base(file))
+				}
+				return nil
+			}
+			q1, err := queue.NewFanOutQueue(dir, 0)
+			if err == nil {
+				// groups are loaded lazily: touch the group too
+				_, _ = q1.GetOrCreateConsumerGroup("a")
+				q1.Close()
+			}
+			page.VerifPageFault = nil
+			if !hit {
+				break // a complete start performs fewer than k operations of this kind
+			}
+			faults++
+			q2, err := queue.NewFanOutQueue(dir, 0)
+			if err != nil {
+				viol("reopen-failed", "queue.NewFanOutQueue", fmt.Sprintf("clean start after a start whose %s #%d failed: %v", kind, k, err))
+				return
+			}
+			when := fmt.Sprintf("after a start whose %s #%d of a page file failed and a clean start", kind, k)
+			bad := false
+			if app := q2.Queue().AppendedSeq(); app != want {
+				viol("positions", "queue", fmt.Sprintf("%s: appended %d, expected %d", when, app, want))
+				bad = true
+			}
+			if qa := q2.Queue().AcknowledgedSeq(); qa != ack {
+				viol("positions", "queue", fmt.Sprintf("%s: queue ack %d, expected %d", when, qa, ack))
+				bad = true
+			}
+			for s := ack + 1; s <= want && !bad; s++ {
+				b, err := q2.Queue().Get(s)
+				if err != nil || !bytes.Equal(b, gcPayload(profile, int(s))) {
+					viol("unacked-readable", "queue.Get", fmt.Sprintf("%s: message %d reads %d bytes %q... err=%v, appended %d bytes", when, s, len(b), head(b), err, len(gcPayload(profile, int(s)))))
+					bad = true
+				}
+			}
+			if g2, err := q2.GetOrCreateConsumerGroup("a"); err != nil {
+				viol("reopen-failed", "GetOrCreateConsumerGroup", fmt.Sprintf("%s: %v", when, err))
+				bad = true
+			} else if g2.AcknowledgedSeq() != ack {
+				viol("positions-survive-reopen", "ConsumerGroup", fmt.Sprintf("%s: group ack %d, expected %d", when, g2.AcknowledgedSeq(), ack))
+				bad = true
+			}
+			q2.Close()
+			if bad {
+				return
+			}
+		}
+	}
+	rep.Count("failed_starts", int64(faults))
+	rep.Outcome(fmt.Sprintf("faulty-open %s n=%d faults=%d", profile, n, faults))
 }
